@@ -1,7 +1,7 @@
 (* The whole body of compute_leaf_layout, regenerated from src/compute/leaf.rs on every run (Gen/LeafGen.v), is the hand
    model Model/Leaf.v:compute_leaf_layout -- same output and same log of measure calls, for any `Num`. *)
 From Coq Require Import List Bool.
-From TV Require Import Model.Common Model.Leaf Model.Root Model.LeafGenRoot Gen.LeafGen.
+From TV Require Import Model.Common Model.Leaf Model.Root Model.LeafGenRoot Gen.LeafGen Gen.RootGen.
 Import ListNotations.
 
 Section LeafGenProofs.
@@ -34,5 +34,27 @@ Section LeafGenProofs.
     gen_root_leaf style measure av = root_leaf style measure av.
   Proof.
     unfold gen_root_leaf, root_leaf. rewrite gen_childless_is_model. reflexivity.
+  Qed.
+
+  (* the whole body of compute_root_layout (Gen/RootGen.v) is root_input / root_assemble around the child layout *)
+  Lemma gen_root_is_model (style : Style T) (child : LayoutInput T -> option (LayoutOutput T * list (MeasureCall T)))
+        (av : Size (AvailableSpace T)) :
+    gen_compute_root_layout style child av =
+    match child (root_input style av) with
+    | Some (output, calls) => Some (root_assemble style av output, calls)
+    | None => None
+    end.
+  Proof.
+    unfold gen_compute_root_layout, root_input, root_known_dimensions, root_assemble, is_scroll.
+    cbv zeta.
+    match goal with |- match child ?a with _ => _ end = match child ?b with _ => _ end => change a with b end.
+    destruct (child _) as [[o c]|]; [ | reflexivity ].
+    destruct (overflow style) as [ox oy]; destruct ox, oy; reflexivity.
+  Qed.
+
+  Lemma gen_root_gen_leaf_is_model (style : Style T) (measure : MeasureFn T) (av : Size (AvailableSpace T)) :
+    gen_root_gen_leaf style measure av = root_leaf style measure av.
+  Proof.
+    unfold gen_root_gen_leaf, root_leaf. rewrite gen_root_is_model, gen_childless_is_model. reflexivity.
   Qed.
 End LeafGenProofs.
